@@ -83,6 +83,73 @@ theorem C11_syntax_error_renders (fs : FS) (fuel : Nat) (path : List String) (sr
   subst hc
   refine ⟨src.toList, by simp [Render.findSource, hreg], (parseText_lines src e h).2⟩
 
+/-- **every citation of every error value exists**: whatever the file system and the root, each
+entry of an error chain returned by the reference loader that carries a file and a line names
+the root or a file of the file system, and the line is between 1 and the number of lines of that
+file — for lexical, syntax *and* elaboration errors (unknown type, bad parameter, empty enum,
+non-integer ids, wrong version), inside modules at any import depth, and for the `mod`
+statements above them (FcpModel/RenderLoad.lean) -/
+theorem C11_all_error_lines (fs : FS) (root : List String) (e : Err) (h : load fs root = .error e) :
+    ∀ m ∈ e, ∀ f l, m.file = some f → m.line = some l →
+      ∃ p s, fs.read p = some s ∧ p.getLast?.getD "" = f ∧ 1 ≤ l ∧ l ≤ 1 + nl s.toList := by
+  unfold load at h
+  cases hr : fs.read root with
+  | none =>
+    rw [hr] at h
+    simp only [Except.error.injEq] at h
+    subst h
+    intro m hm f l hf _
+    simp only [List.mem_singleton] at hm
+    subst hm
+    cases hf
+  | some src =>
+    rw [hr] at h
+    simp only at h
+    intro m hm f l hf hl
+    obtain ⟨p, s, hk, hp, hb⟩ := loadFile_cites fs root src 16 root src (Or.inl ⟨rfl, rfl⟩) e h m hm f l hf hl
+    rcases hk with ⟨rfl, rfl⟩ | hk
+    · exact ⟨p, s, hr, hp, hb⟩
+    · exact ⟨p, s, hk, hp, hb⟩
+
+/-- **every error value of the loader can be rendered**, by a logger whose registry holds the
+text of every file under its name.  Partial in one respect: the entries of the model carry base
+names only, so the registry is required to be unambiguous (no two files of the tree with one
+base name); the implementation also registers full paths, and namesake modules are covered by
+the correspondence (C20's clusters) rather than by this theorem -/
+theorem C11_load_errors_render_partial (fs : FS) (root : List String) (e : Err) (h : load fs root = .error e)
+    (srcs : Render.Sources)
+    (hreg : ∀ p s, fs.read p = some s → srcs.lookup (p.getLast?.getD "") = some s.toList) :
+    (Render.render srcs true (e.map Render.ofEMsg)).isSome := by
+  rw [Render.render_isSome_iff]
+  intro rm hrm c hc
+  obtain ⟨m, hm, rfl⟩ := List.mem_map.mp hrm
+  unfold Render.ofEMsg at hc
+  simp only at hc
+  cases hf : m.file with
+  | none => rw [hf] at hc; simp at hc
+  | some f =>
+    cases hl : m.line with
+    | none => rw [hf, hl] at hc; simp at hc
+    | some l =>
+      rw [hf, hl] at hc
+      simp only [Option.some.injEq] at hc
+      subst hc
+      obtain ⟨p, s, hr, hp, _, hb⟩ := C11_all_error_lines fs root e h m hm f l hf hl
+      refine ⟨s.toList, ?_, hb⟩
+      have := hreg p s hr
+      rw [hp] at this
+      simp [Render.findSource, this]
+
+/-- non-vacuity of `C11_all_error_lines`: an elaboration error (empty enum) inside an imported
+module; the chain cites line 2 of the module, then the `mod` statement on line 2 of the root -/
+def nvFs : FS := [(["main.fcp"], "version: \"3\"\nmod a;\n"), (["a.fcp"], "version: \"3\"\nenum E {\n}\n")]
+
+def nvCites (r : Except Err Tree) : List (Option String × Option Nat) :=
+  match r with | .error e => e.map (fun (m : EMsg) => (m.file, m.line)) | .ok _ => []
+
+example : nvCites (load nvFs ["main.fcp"]) =
+    [(some "a.fcp", some 2), (none, none), (some "main.fcp", some 2), (none, none)] := by decide
+
 /-- non-vacuity: a two-line source, an error citing its second line, and the rendered text -/
 example : Render.render [("a.fcp", "x\ny".toList)] true [⟨"boom".toList, some ⟨"a.fcp", "a.fcp", 2⟩⟩] =
     some "  → Error: boom\n   ↳ [a.fcp:2]\n  |\n2 | y\n  | ~\n".toList := by decide
